@@ -131,6 +131,66 @@ theorem mkTree_leaves (items : List Bytes) (hne : items ≠ []) :
       omega
     simp only [Tree.leaves, ih1 h1, ih2 h2, List.take_append_drop]
 
+/-- the reference split of a power of two is its half -/
+theorem powerOfTwo_pow2 (k : Nat) : powerOfTwo (2 ^ (k + 1)) = 2 ^ k := by
+  have h2 : 2 ≤ 2 ^ (k + 1) := by
+    have := Nat.pow_le_pow_right (by decide : 0 < 2) (by omega : 1 ≤ k + 1); simpa using this
+  have h1 := powerOfTwo_lt (2 ^ (k + 1)) h2
+  have h3 := le_two_powerOfTwo (2 ^ (k + 1))
+  unfold powerOfTwo at h1 h3 ⊢
+  have := pow2_window_unique (2 ^ (k + 1)) (Nat.log2 (2 ^ (k + 1) - 1)) k h1 h3
+    (by rw [Nat.pow_succ]; have := Nat.pow_pos (n := k) (by decide : 0 < 2); omega)
+    (by rw [Nat.pow_succ]; omega)
+  rw [this]
+
+/-- **Shape**: a list of exactly 2^k items becomes the perfect binary tree of depth k. -/
+theorem mkTree_pow2_perfect (k : Nat) : ∀ items : List RBytes, items.length = 2 ^ k →
+    (mkTree items).perfect k := by
+  induction k with
+  | zero =>
+    intro items h
+    match items, h with
+    | [x], _ => simp [mkTree, Tree.perfect]
+  | succ k ih =>
+    intro items h
+    have hk : 2 ≤ 2 ^ (k + 1) := by
+      have := Nat.pow_le_pow_right (by decide : 0 < 2) (by omega : 1 ≤ k + 1); simpa using this
+    match items, h with
+    | [], h => simp at h; omega
+    | [_], h => simp at h; omega
+    | x :: y :: rest, h =>
+      rw [mkTree]
+      simp only [Tree.perfect]
+      refine ⟨k, rfl, ?_, ?_⟩
+      · apply ih
+        rw [h, powerOfTwo_pow2, List.length_take, h]
+        rw [Nat.pow_succ]; omega
+      · apply ih
+        rw [h, powerOfTwo_pow2, List.length_drop, h]
+        rw [Nat.pow_succ]; omega
+
+/-- **Shape**: with two or more items the root is a branch whose LEFT subtree is
+    the perfect tree over the first 2^k items, 2^k < count ≤ 2^(k+1) — the tree
+    is left-heavy exactly as in the reference implementation. -/
+theorem mkTree_left_perfect (items : List RBytes) (h2 : 2 ≤ items.length) :
+    ∃ k l r, mkTree items = .branch l r ∧ l.perfect k ∧ l.leaves = items.take (2 ^ k) ∧
+      2 ^ k < items.length ∧ items.length ≤ 2 ^ (k + 1) := by
+  match items, h2 with
+  | x :: y :: rest, _ =>
+    have hlt := powerOfTwo_lt (x :: y :: rest).length (by simp)
+    have hle := le_two_powerOfTwo (x :: y :: rest).length
+    refine ⟨Nat.log2 ((x :: y :: rest).length - 1), _, _, by rw [mkTree], ?_, ?_, ?_, ?_⟩
+    · apply mkTree_pow2_perfect
+      rw [List.length_take]; unfold powerOfTwo at hlt ⊢; omega
+    · apply mkTree_leaves
+      intro hc
+      have := congrArg List.length hc
+      have hpos := powerOfTwo_pos (x :: y :: rest).length
+      simp only [List.length_take, List.length_nil] at this
+      omega
+    · exact hlt
+    · rw [Nat.pow_succ]; unfold powerOfTwo at hle; omega
+
 /-! Non-vacuity and concrete shapes (toy hash = identity, so the root spells the tree). -/
 example : merkleRoot id [[7], [8], [9]] = [1, 1, 0, 7, 0, 8, 0, 9] := by
   simp [merkleRoot, merkleNode, largestPow2Below, lp2Loop, merkleLeafTag, merkleBranchTag]
